@@ -239,9 +239,10 @@ def run_check(mod, mod_name, prop, tier, seed, root, t0):
         "wall_s": round(wall, 2),
         "violations": len(new),
     }
-    os.makedirs(os.path.join(HERE, "evidence"), exist_ok=True)
-    with open(os.path.join(HERE, "evidence", f"{prop}.json"), "w") as f:
-        json.dump(ev, f, indent=1, sort_keys=True, default=str)
+    if not os.environ.get("VERIF_NOEVIDENCE"):  # set by tools/try_patch.sh
+        os.makedirs(os.path.join(HERE, "evidence"), exist_ok=True)
+        with open(os.path.join(HERE, "evidence", f"{prop}.json"), "w") as f:
+            json.dump(ev, f, indent=1, sort_keys=True, default=str)
 
     print(f"[{prop}] tier={tier} seed={seed} jobs={len(jobs)} cases={agg['n']}"
           f" distinct_nontrivial={distinct} wall={wall:.1f}s")
